@@ -45,6 +45,8 @@ class Divergence(Exception):
 
 
 def ev_json(ev):
+    if ev[0] == 'cmdw':
+        return ['cmdw', ev[1], [[x.hex() for x in f] for f in ev[2]]]
     return [x.hex() if isinstance(x, bytes) else ([y.hex() for y in x] if isinstance(x, list) else x) for x in ev]
 
 
@@ -54,6 +56,8 @@ def ev_from_json(j):
         return ('cmd', j[1], [bytes.fromhex(x) for x in j[2]])
     if kind == 'send':
         return ('send', j[1], bytes.fromhex(j[2]))
+    if kind == 'cmdw':
+        return ('cmdw', j[1], [[bytes.fromhex(x) for x in f] for f in j[2]])
     return tuple(j)
 
 
@@ -125,6 +129,8 @@ class Session:
                 self.compare_snap(ev)
         elif kind == 'send':
             self.raw_send(ev, ev[1], ev[2])
+        elif kind == 'cmdw':
+            self.one_write(ev, ev[1], ev[2])
         else:
             raise ValueError(ev)
 
@@ -249,6 +255,38 @@ class Session:
         self.compare_outputs(ev, c, None, out_i, crash_i, line)
         if self.compare_state:
             self.compare_snap(ev)
+
+    def one_write(self, ev, c, reqs, settle=True):
+        """asyncio front-end: several requests in ONE write (what a non-transactional pipeline of the client does).  If the first one parks, the
+        rest is buffered behind it and answered after it, in order"""
+        assert self.aio
+        data = b''.join(encode_request(f) for f in reqs)
+        was_paused = bool(self.impl.socks[c]._paused)
+        out_i, crash_i, clocks, picks = self.impl.send(c, data)
+        self.last_out = out_i
+        line = self.model.sendm(c, b''.join(encode_request(model_fields(f)) for f in reqs), clocks, picks, park=2)
+        if was_paused:
+            self.pending[c] = self.pending.get(c, 0) + len(reqs)
+            self.__dict__.setdefault('pending_cmds', {}).setdefault(c, []).extend(list(f) for f in reqs)
+        elif self.impl.socks[c]._paused:
+            if not hasattr(self.impl, 'parked_kind'):
+                self.impl.parked_kind = {}
+            # the request that parked: the first blocking pop of the write (the ones before it were answered at once)
+            blk = [i for i, f in enumerate(reqs) if Cn.name_of(f) in ('blpop', 'brpop', 'brpoplpush')]
+            first = blk[0] if blk else 0
+            self.impl.parked_kind[c] = Cn.name_of(reqs[first])
+            try:
+                self.park_info[c] = (self.impl.loop.vtime, float(reqs[first][-1]))
+            except ValueError:
+                pass
+            self.pending[c] = self.pending.get(c, 0) + len(reqs) - first - 1
+            if reqs[first + 1:]:
+                self.__dict__.setdefault('pending_cmds', {}).setdefault(c, []).extend(list(f) for f in reqs[first + 1:])
+        self.compare_outputs(ev, c, None, out_i, crash_i, line)
+        if self.compare_state:
+            self.compare_snap(ev)
+        if settle:
+            self.after_async(ev)
 
     def compare_outputs(self, ev, c, name, out_i, crash_i, line):
         out_m, crash_m, fault = Mo.parse_out(line)
